@@ -92,6 +92,10 @@ h("ki3_window_extend_ring", I + "/ki3_window.rs", "inflate::verif_kani::ki3_wind
   functions=["Window::extend"], bounds="W = 8 (+64 padding), two extends with symbolic slices <= 12 bytes each, no checksum")
 # ki3_window_extend_adler (real adler32 fused into the window copy, W = 4): did not finish in 1200 s; the fused-copy path is covered by
 # kc9_adler_piecewise_fold_copy (adler32_fold_copy) + ki3_window_extend_ring (ring) + ki7 (which bytes are folded): not registered
+h("ki3_window_extend_checksum_order", I + "/ki3_window.rs", "inflate::verif_kani::ki3_window", ["C08", "C04"], kernel="KI3", expect_s=120, timeout=1200, weight=2,
+  functions=["Window::extend (update_checksum, zlib and gzip arms, len >= wsize split, wrap)", "Crc32Fold::fold", "Crc32Fold::fold_copy", "adler32_fold_copy"],
+  bounds="4-byte window, two consecutive slices of 0..=7 symbolic bytes, any running check value, zlib or gzip",
+  assumptions=["crc32_braid / adler32 -> cheap order-sensitive byte-wise fold (which bytes, which order, which start value is the subject; C09 decides the real kernels)"])
 h("ki3_get_dictionary_order", I + "/ki3_window.rs", "inflate::verif_kani::ki3_window", ["C13", "C02"],
   kernel="KI3", expect_s=30, timeout=600,
   functions=["inflate::get_dictionary", "Window::extend"], bounds="W = 8, any history from two extends <= 12 bytes each")
@@ -130,6 +134,11 @@ h("ki5b_extra", HDR, HP, ["C20", "C02"], kernel="KI5b", expect_s=60, timeout=900
   functions=["State::dispatch (mode Extra ...)"],
   bounds="XLEN <= 9, any progress through the field, 0..=6 input bytes, extra_max <= 4 in an 8-byte canaried buffer or NULL",
   assumptions=NOCRC + ["pre-state invariant: remaining <= extra_len"])
+for _n in ("name", "comment"):
+    h("ki5b_%s_entry_length" % _n, HDR, HP, ["C20", "C02", "C14"], kernel="KI5b", expect_s=30, timeout=600, unwindset=DISPATCH_US(3),
+      functions=["State::dispatch (mode %s with the field absent)" % ("Extra" if _n == "name" else "Name")],
+      bounds="any stale State::length, %s, FHCRC either way, no input (suspends at the next field)" % ("FEXTRA absent + FNAME present" if _n == "name" else "FNAME absent + FCOMMENT present"),
+      assumptions=NOCRC)
 h("ki5b_name", HDR, HP, ["C20", "C02", "C08"], kernel="KI5b", expect_s=40, timeout=900,
   functions=["State::dispatch (mode Name ...)"],
   bounds="0..=6 input bytes, name_max <= 4 in an 8-byte canaried buffer or NULL, any progress already <= name_max",
@@ -167,6 +176,10 @@ h("ki5c_stored", BLK, BP, ["C03", "C02", "C15", "C04", "C01"], kernel="KI5c", ex
   functions=["State::dispatch (modes Stored, CopyBlock, Type, TypeDo, Check, Length, Done)", "Writer::extend", "BitReader::next_byte_boundary"],
   bounds="0..=7 stale bits, 0..=8 input bytes (LEN, NLEN, <= 4 data), output capacity 0..=4 in a canaried array, flush in {NoFlush, Block}, final block",
   assumptions=STEP_ASSUME)
+h("ki5c_stored_trees", BLK, BP, ["C04", "C03"], kernel="KI5c", expect_s=40, timeout=900,
+  functions=["State::dispatch (mode Stored under flush = Trees)"],
+  bounds="0..=7 stale bits, 4..=8 input bytes, any LEN/NLEN, last-block flag set or clear; one call; composes with ki5c_copyblock_resume (any remaining length)",
+  assumptions=STEP_ASSUME)
 h("ki5c_copyblock_resume", BLK, BP, ["C15", "C02", "C04"], kernel="KI5c", expect_s=40, timeout=900,
   functions=["State::dispatch (mode CopyBlock)"],
   bounds="any remaining length <= 65535, 0..=6 input bytes, output capacity 0..=6 in a canaried array", assumptions=STEP_ASSUME)
@@ -191,15 +204,28 @@ h("ki5d_dist_step_dispatch", SYM, SP, ["C03", "C02", "C04"], kernel="KI5d", expe
 h("ki5d_dist_step_friends", SYM, SP, ["C03", "C02", "C04"], kernel="KI5d", expect_s=120, timeout=1200, weight=2,
   functions=["State::len_and_friends (modes LenExt, Dist, DistExt, Match)"],
   bounds="same as ki5d_dist_step_dispatch, through the second copy of the code", assumptions=STEP_ASSUME)
-h("ki5d_match_step_dispatch", SYM, SP, ["C02", "C03", "C04"], kernel="KI5d", expect_s=400, timeout=2400, weight=3, mem_gb=20,
-  functions=["State::dispatch (mode Match)", "Writer::copy_match", "Writer::extend_from_window", "Window::extend (to reach the ring pre-state)"],
-  bounds="length 1..=8, offset 1..=32768, 0..=4 bytes already written, capacity <= 8 in a canaried 16-byte array, window 8 with any reachable (have, next)",
-  assumptions=STEP_ASSUME)
-h("ki5d_match_step_friends", SYM, SP, ["C02", "C03", "C04"], kernel="KI5d", expect_s=400, timeout=2400, weight=3, mem_gb=20,
+MATCH_ASSUME = STEP_ASSUME + ["Writer::copy_match / extend_from_window -> byte-loop models that assert the caller-side precondition "
+                              "(offset <= filled, length <= remaining, range inside the window); the real chunked primitives are "
+                              "decided equal to that loop by ki2_*_twin", "window ring state (have, next) set directly to any state "
+                              "Window::extend reaches (ki3_window_extend_ring)"]
+h("ki5d_match_step_dispatch", SYM, SP, ["C02", "C03", "C04"], kernel="KI5d", expect_s=200, timeout=1800, weight=2, mem_gb=16,
+  unwindset=DISPATCH_US(3, inner=5),
+  functions=["State::dispatch (mode Match)"],
+  bounds="length 1..=258, offset 1..=32768, 0..=4 bytes already written, capacity <= 8 in a canaried 16-byte array, window 8 with any reachable (have, next)",
+  assumptions=MATCH_ASSUME)
+h("ki5d_match_step_friends", SYM, SP, ["C02", "C03", "C04"], kernel="KI5d", expect_s=200, timeout=1800, weight=2, mem_gb=16,
+  unwindset=[("State::<'_>::len_and_friends", None, 5), ("BitReader::<'_>::need_bits", None, 6)],
   functions=["State::len_and_friends (mode Match)"], bounds="same as ki5d_match_step_dispatch, second copy of the code",
-  assumptions=STEP_ASSUME)
-h("ki5d_match_step_dispatch_wide", SYM, SP, ["C02", "C03"], kernel="KI5d", tier="thorough", expect_s=2000, timeout=5400, weight=4, mem_gb=24,
-  functions=["State::dispatch (mode Match)"], bounds="length 1..=258, capacity <= 12", assumptions=STEP_ASSUME)
+  assumptions=MATCH_ASSUME)
+GUARD_ASSUME = STEP_ASSUME + ["Writer::copy_match / extend_from_window -> contract stubs: assert the caller-side precondition and account for the bytes "
+                              "without moving them", "window ring state (have, next) set directly to any state Window::extend reaches"]
+h("ki5d_match_guard_dispatch", SYM, SP, ["C02", "C03", "C04"], kernel="KI5d", expect_s=100, timeout=1200, weight=2, mem_gb=16,
+  unwindset=DISPATCH_US(3, inner=5),
+  functions=["State::dispatch (mode Match: too-far test, window/output split, length and room accounting)"],
+  bounds="length 1..=258, offset 1..=32768, 0..=4 bytes already written, capacity <= 8, window 8 with any reachable (have, next)", assumptions=GUARD_ASSUME)
+h("ki5d_match_guard_friends", SYM, SP, ["C02", "C03", "C04"], kernel="KI5d", expect_s=100, timeout=1200, weight=2, mem_gb=16,
+  unwindset=[("State::<'_>::len_and_friends", None, 5), ("BitReader::<'_>::need_bits", None, 6)],
+  functions=["State::len_and_friends (mode Match)"], bounds="same as ki5d_match_guard_dispatch, second copy of the code", assumptions=GUARD_ASSUME)
 h("ki5d_fixed_tables_are_rfc", SYM, SP, ["C03", "C01", "C05"], kernel="KD2/KI5d", expect_s=5, timeout=300,
   functions=["inffixed_tbl::LENFIX", "inffixed_tbl::DISTFIX"], bounds="all 512 + 32 table indices (exhaustive, decided symbolically)")
 
@@ -331,12 +357,13 @@ for _d in range(8):
       bounds="windowBits 8; concrete prefix: final fixed block, 9 literals, length-3 code, distance code %d (distances %s); then ceil(extra/8) symbolic bytes; "
              "in-window matches must reproduce the LZ77 bytes" % (_d, "1..=8 region"), assumptions=KB1_AS)
 
-for _d in (0, 4, 14, 15, 16):
+for _d in (0, 1, 3, 5, 6, 7, 8):
     h("kb1_back_wrapped_d%d" % _d, I + "/kb1_back.rs", "inflate::verif_kani::kb1_back", ["C19"],
-      kernel="KB1", tier="quick" if _d in (15, 16) else "thorough", expect_s=200, timeout=1800, weight=2, mem_gb=16, unwindset=KB1_US(8, "back_wrapped_instance", inner=2),
+      kernel="KB1", expect_s=200, timeout=1800, weight=2, mem_gb=16, unwindset=KB1_US(14, "back_wrapped_instance", inner=3),
       functions=["inflate::infback::back (Stored copy, window flush through the output callback, Len, too-far check after the window wrapped, ring copy)"],
-      bounds="windowBits 8; concrete input: non-final stored block of exactly 256 bytes (fills and flushes the window), final fixed block with 1 literal, "
-             "length-3 code, distance code %d; then ceil(extra/8) symbolic bytes (all extra-bit values); distances <= 256 must be accepted and copy from the ring" % _d,
+      bounds="reduced instance: 16-byte window (back() takes every size from window.buffer_size(); the API creates 256..32768); concrete input: "
+             "non-final stored block of exactly 16 bytes (fills and flushes the window), final fixed block with 1 literal, length-3 code, distance "
+             "code %d; then ceil(extra/8) symbolic bytes (all extra-bit values); distances <= 16 must be accepted and copy from the ring, larger rejected" % _d,
       assumptions=KB1_AS)
 
 # ---------------------------------------------------------------- checksums (C09)
@@ -350,10 +377,11 @@ h("kc9_crc_braid_table", CB, CBP, ["C09"], kernel="KC9", expect_s=60, timeout=90
 h("kc9_crc_naive_step", CB, CBP, ["C09"], kernel="KC9", expect_s=30, timeout=900,
   functions=["crc32::braid::crc32_naive_inner"], bounds="every 32-bit crc, one and two symbolic bytes (induction step of the byte kernel)")
 # kc9_crc_word_step (word kernel vs byte kernel): did not terminate in 1800 s even with concrete words and a symbolic crc: not registered
-h("kc9_crc_braid_short", CB, CBP, ["C09"], kernel="KC9", expect_s=120, timeout=1800, weight=2,
-  functions=["crc32::braid::crc32_braid::<5>", "crc32_naive_inner", "crc32_words_inner"],
-  bounds="symbolic start, 0..=3 symbolic bytes; reference = bitwise CRC-32",
-  assumptions=["Kani's model of <[u8]>::align_to decides prefix/words/suffix; whichever split it yields is the one checked"])
+h("kc9_crc_braid_short", CB, CBP, ["C09"], kernel="KC9", expect_s=60, timeout=900, weight=2, mem_gb=16,
+  functions=["crc32::braid::crc32_braid::<5> (inversions, prefix/words/suffix composition)", "crc32_naive_inner", "crc32_words_inner (empty word part)"],
+  bounds="symbolic start, 0..=4 symbolic bytes; reference = bitwise CRC-32",
+  assumptions=["<[u8]>::align_to -> returns everything in the prefix (an answer its contract permits; Kani's model of the split ran out of memory at 16 GB); "
+               "the word path is therefore NOT exercised here: its tables are decided by kc9_crc_tables / kc9_crc_braid_table, the word step itself is not claimed"])
 CC = "zlib-rs/src/crc32/combine/verif_kani.rs"
 CCP = "crc32::combine::verif_kani"
 h("kc9_crc_combine_len0_1_2", CC, CCP, ["C09"], kernel="KC9", expect_s=120, timeout=1800, weight=2,
@@ -465,12 +493,12 @@ QUICK = {
     "C01": ["kd8_quick_finish_n1", "kd8_quick_finish_n3", "kd2_static_encode_matches_rfc", "ki5d_fixed_tables_are_rfc",
             "kd1_emitters_one_step", "ki5c_stored", "kd10_reset_equals_fresh"],
     "C02": ["ki1_bitreader_refill_model", "ki2_copy_match_twin_small", "ki2_extend_from_window_twin", "ki3_window_extend_ring",
-            "ki5b_extra", "ki5b_name", "ki5c_stored", "ki5d_len_step", "ki6_fast_loop_room", "ki7_inflate_copyblock",
+            "ki5b_extra", "ki5b_name_entry_length", "ki5b_comment_entry_length", "ki5b_name", "ki5c_stored", "ki5d_len_step", "ki6_fast_loop_room", "ki7_inflate_copyblock",
             "kb1_back_lit1_d16", "ki5c_lenlens_order"],
-    "C03": ["ki5a_head_n2", "ki5a_head_n6", "ki5c_typedo_b3_i0", "ki5c_typedo_b0_i1", "ki5c_stored", "ki5c_table",
+    "C03": ["ki5d_match_guard_dispatch", "ki5d_match_guard_friends", "ki5a_head_n2", "ki5a_head_n6", "ki5c_typedo_b3_i0", "ki5c_typedo_b0_i1", "ki5c_stored", "ki5c_table",
             "ki5c_lenlens_order", "ki5d_len_step", "ki5d_dist_step_friends", "ki5d_fixed_tables_are_rfc", "ki5e_check_zlib",
             "ki5e_length_gzip", "ki5b_hcrc"],
-    "C04": ["ki1_bitreader_split", "ki5c_copyblock_resume", "ki5c_lenlens_order", "ki5b_extra", "ki5d_dist_step_friends",
+    "C04": ["ki1_bitreader_split", "ki5c_copyblock_resume", "ki5c_stored_trees", "ki5d_match_guard_dispatch", "ki5c_lenlens_order", "ki5b_extra", "ki5d_dist_step_friends",
             "ki7_inflate_copyblock", "ki3_window_extend_ring", "ki5c_typedo_b2_i0"],
     "C05": ["kd1_bitwriter_pack", "kd1_emitters_one_step", "kd1_bitwriter_full_register", "kd10_prime",
             "kd2_static_encode_matches_rfc", "kd2_static_ltree_is_rfc_fixed_code", "kd7_zlib_wrapper", "kd8_quick_finish_n1",
@@ -478,7 +506,7 @@ QUICK = {
     "C06": ["kd7_zlib_wrapper", "kd7_zlib_starved_finish", "kd10_prime", "kd10_params_tune", "kd10_set_header",
             "kd8_quick_finish_n1", "ka1_alloc_overflow_and_null"],
     "C07": ["kd8_quick_finish_n1", "kd8_quick_finish_n3", "kd6_stored_one_call", "kd7_gzip_header_none_s1"],
-    "C08": ["ki5e_check_zlib", "ki5e_check_gzip", "ki5e_length_gzip", "ki5b_hcrc", "ki5b_fixed_part", "ki5b_name",
+    "C08": ["ki3_window_extend_checksum_order", "ki5e_check_zlib", "ki5e_check_gzip", "ki5e_length_gzip", "ki5b_hcrc", "ki5b_fixed_part", "ki5b_name",
             "ki7_inflate_copyblock", "kc9_adler_len_0_1_2_3"],
     "C09": ["kc9_crc_tables", "kc9_crc_braid_table", "kc9_crc_naive_step", "kc9_crc_braid_short",
             "kc9_crc_combine_len0_1_2", "kc9_multmodp_identity", "kc9_adler_len_0_1_2_3"],
@@ -496,7 +524,7 @@ QUICK = {
             "ka2_inflate_end_releases_once"],
     "C19": ["kb1_back_lit1_d0", "kb1_back_lit1_d4", "kb1_back_lit1_d16", "kb1_back_lit1_d29", "kb1_back_lit1_d30",
             "kb1_back_lit9_d5", "ki2_copy_match_back"],
-    "C20": ["ki5b_fixed_part", "ki5b_extra", "ki5b_name", "ki5b_comment", "ki5b_hcrc", "kd10_set_header", "kd7_flush_bytes_unit",
+    "C20": ["ki5b_fixed_part", "ki5b_extra", "ki5b_name_entry_length", "ki5b_comment_entry_length", "ki5b_name", "ki5b_comment", "ki5b_hcrc", "kd10_set_header", "kd7_flush_bytes_unit",
             "kd7_gzip_resume_extra", "kd7_gzip_resume_name", "kd7_gzip_resume_comment"],
 }
 for _pid, _hs in QUICK.items():
